@@ -399,6 +399,11 @@ impl GlyphDeltas {
         if deltas.iter().all(|d| d.required) {
             return PackedPointNumbers::All;
         }
+        // An empty list of point numbers can't be encoded: a count of zero
+        // means 'all points'. If no delta is required, write all of them.
+        if !deltas.iter().any(|d| d.required) {
+            return PackedPointNumbers::All;
+        }
 
         let dense = Self::build_non_sparse_data(deltas);
         let sparse = Self::build_sparse_data(deltas);
